@@ -8,9 +8,13 @@
 (* with Restart steps (dump -> fresh instance -> load) anywhere.           *)
 (* TLC checks, for all batch-size sequences and restart positions, that    *)
 (* the first |grid| suggestions are pairwise distinct and cover the grid,  *)
-(* and prints every session with the exact expected points; the real       *)
+(* and prints every session (batch sizes and restart positions); the real  *)
 (* designer - direct, and hosted in the service across servicer restarts   *)
-(* on an SQLite file - is replayed against them.                           *)
+(* on an SQLite file - runs each of them.  The visiting ORDER written here *)
+(* (Point) is the one the code uses today; C13 does not prescribe it, so   *)
+(* the driver judges the observed runs order-free: valid grid points, the  *)
+(* first |grid| pairwise distinct and covering, and a session with         *)
+(* restarts identical to the live session with the same batch sizes.       *)
 (***************************************************************************)
 EXTENDS Naturals, Sequences, FiniteSets, TLC, Json
 CONSTANTS D1, D2, D3, MaxBatch, Extra    \* per-parameter grid sizes (D3 = 0: two parameters); sessions run to |grid| + Extra suggestions
